@@ -1005,13 +1005,21 @@ class ExperimentTopology(Topology):
         Prune this node, its components, network services and interfaces as well as peer network
         service interface.
         """
-        #self.graph_model.remove_network_node_with_components_nss_cps_and_links(node_id=node.node_id)
+        if not self.graph_model.node_exists(node_id=node.node_id, label=ABCPropertyGraph.CLASS_NetworkNode):
+            # already removed by an earlier pruning step
+            return
         self.remove_node(name=node.name)
 
     def _prune_ns(self, ns: NetworkService):
         """
-        Prune this network service and its interfaces
+        Prune this network service and its interfaces, disconnecting them first from the services
+        they are connected to or peered with
         """
+        if not self.graph_model.node_exists(node_id=ns.node_id, label=ABCPropertyGraph.CLASS_NetworkService):
+            # already removed together with its node or component
+            return
+        # look the service up again: earlier pruning steps may have removed some of its interfaces
+        self._disconnect_from_services(self._get_ns_by_id(ns.node_id).interface_list)
         self.graph_model.remove_ns_with_cps_and_links(node_id=ns.node_id)
 
     def _prune_components(self, c: Component, parent: Node):
@@ -1019,13 +1027,19 @@ class ExperimentTopology(Topology):
         Prune this component, its network services and interfaces as well as peer
         network service interfaces
         """
-        #self.graph_model.remove_component_with_nss_cps_and_links(node_id=c.node_id)
+        if not self.graph_model.node_exists(node_id=c.node_id, label=ABCPropertyGraph.CLASS_Component):
+            # already removed together with its node
+            return
         parent.remove_component(c.name)
 
     def _prune_interface(self, i: Interface):
         """
-        Prune this interface
+        Prune this interface, disconnecting it first from the service it is connected to
         """
+        if not self.graph_model.node_exists(node_id=i.node_id, label=ABCPropertyGraph.CLASS_ConnectionPoint):
+            # already removed together with its service, or as the peer of a pruned interface
+            return
+        self._disconnect_from_services([Interface(name=i.name, node_id=i.node_id, topo=self)])
         self.graph_model.remove_cp_and_links(node_id=i.node_id)
 
     def prune(self, reservation_state):
